@@ -356,3 +356,48 @@ def name_injective_floats(fa, fb, ia, ib):
     a = (P(fa, 0, len(FL) - 1), P(fb, 0, len(FL) - 1), P(ia, 0, 1), P(ib, 0, 1))
     with env.notrace():
         return _floats(*a)
+
+
+# ---- Module-valued parameters: two modules with one simple name (defined in two files) are different parameters ---
+def _module_params(k1, k2):
+    env._reset_all()
+    from harness.c07_history import _libs
+    la, lb = _libs()
+    units = [la.make(["p", "n"])[0], lb.make(["x", "y"])[0]]
+    units.append(units[0])  # (index 2: the first object again)
+    if "MP" not in _FLT:
+        @h.paramclass
+        class MP:
+            unit = h.Param(dtype=h.Instantiable, desc="unit cell")
+            n = h.Param(dtype=int, desc="n", default=2)
+
+        @h.generator
+        def UnitUser(p: MP) -> h.Module:
+            m = h.Module()
+            m.x = h.Port(width=p.n)
+            return m
+        _FLT["MP"], _FLT["UnitUser"] = MP, UnitUser
+    G = _FLT["UnitUser"]
+    a, b = G(unit=units[k1]), G(unit=units[k2])
+    env.COUNTS["reached"] += 1
+    same = units[k1] is units[k2]
+    if (a is b) != same or (a.name == b.name) != same:
+        return False
+    if not same:  # both can live in one package
+        top = h.Module(name="Top")
+        top.s = h.Signal(width=2)
+        top.a, top.b = a(x=top.s), b(x=top.s)
+        try:
+            h.to_proto(top)
+        except Exception:
+            return False
+    return True
+
+
+@harness("C09", args="k1: int, k2: int", pre=["0 <= k1 <= 2", "0 <= k2 <= 2"], tiers={"quick": {"timeout": 120}}, sample=(0, 1),
+         bounds="a generator with a Module-valued parameter called with two distinct modules of one simple name (defined in two python files: qualified names differ) and with one module twice: one generated module and one name iff the same module object; distinct results export together",
+         generalises="selectors (solver-enumerated)", outside="")
+def module_params(k1, k2):
+    k1, k2 = env.pick(k1, 0, 2), env.pick(k2, 0, 2)
+    with env.notrace():
+        return _module_params(k1, k2)
